@@ -9,3 +9,5 @@ import Proto.Heap
 import Proto.Ranker
 import Proto.Select
 import Proto.SelectProofs
+import Proto.Mat
+import Proto.MatProofs
